@@ -334,6 +334,11 @@ func (ps *sparser) typ() *SType {
 		ps.expectOp("]")
 		return &SType{Kind: "map", Key: k, Elem: ps.typ()}
 	}
+	if t.s == "struct" && ps.isOp("{") {
+		ps.next()
+		ps.expectOp("}")
+		return &SType{Kind: "emptystruct"}
+	}
 	if t.s == "seq" {
 		return &SType{Kind: "seq"}
 	}
